@@ -358,6 +358,7 @@ func copyJar(j map[string]string) map[string]string {
 }
 
 func (c *Ctx) genC17() {
+	defer c.optionsDoNotAllowUnsolicited()
 	histories := 12
 	if !c.quick() {
 		histories = 150
